@@ -352,7 +352,8 @@ impl Reason {
             Reason::NotPreparing => &["C08.mutated"],
             Reason::FinalizeBounds => &["C08.finalize_bounds"],
             Reason::EarlyDelete => &["C08.early_delete"],
-            Reason::SoldDelete => &["C08.status_regressed", "C10.fee_conservation"],
+            // a sold listing leaving through the refund path skips its recorded fee
+            Reason::SoldDelete => &["C08.status_regressed", "C10.fee_conservation", "C05.payout_delta"],
             Reason::BuyBucketNotOwned => &["C02.unexpected_success", "C04.nonowner_success"],
             Reason::BuyNoListing
             | Reason::BuyNotFinalized
